@@ -78,7 +78,12 @@ func (self FloatLiteralExpression) String() string {
 	}
 
 	// The grammar has no exponent notation: `1e-05` (what `fmt.Sprint` prints for 0.00001) cannot be read back.
-	return strconv.FormatFloat(self.Value, 'f', -1, 64)
+	text := strconv.FormatFloat(self.Value, 'f', -1, 64)
+	if !strings.Contains(text, ".") {
+		// an integral float outside the int range (>= 2^63): without a fraction it would be read back as an int literal
+		text += "f"
+	}
+	return text
 }
 
 //
